@@ -7,7 +7,11 @@ from props import leaf, proto
 def run(prop, tier, seed):
     rep = vlib.Report(prop, tier, seed)
     rng = random.Random(seed * 7919 + int(prop[1:]))
-    leaf.check_into(rep, prop, tier, rng)
+    if prop == "C08":
+        from props import framing
+        framing.check_into(rep, prop, tier, rng)
+    else:
+        leaf.check_into(rep, prop, tier, rng)
     # C06: the dispatch half has its own theorem file; C05: the end-to-end half re-uses Properties_C05 (already checked)
     module = "Properties_%s_dispatch" % prop if prop == "C06" else "-none-"
     proto.check_into(rep, prop, tier, rng, module=module, merge=True)
@@ -17,4 +21,9 @@ def run(prop, tier, seed):
 def replay(prop, path):
     import json
     r = json.load(open(path))
-    return (proto.replay if r.get("kind") == "proto" else leaf.replay)(prop, path)
+    if r.get("kind") == "proto":
+        return proto.replay(prop, path)
+    if prop == "C08":
+        from props import framing
+        return framing.replay(prop, path)
+    return leaf.replay(prop, path)
